@@ -1,7 +1,11 @@
 // Package options contains render options for MJML components
 package options
 
-import "sync"
+import (
+	"sync"
+
+	"github.com/preslavrachev/gomjml/mjml/globals"
+)
 
 // FontTracker tracks font families used by components during rendering
 type FontTracker struct {
@@ -60,6 +64,10 @@ type RenderOpts struct {
 	RemainingBodySections    int                      // Remaining Outlook-sensitive blocks (mj-section/mj-wrapper) after the current one
 	RequireEmptyStyleTag     bool                     // Whether the head output should include an empty style tag for Outlook parity
 	InvalidAttributeReporter func(tagName, attrName string, line int)
+	// GlobalAttributes holds the mj-attributes definitions (tag defaults, mj-all, mj-class) of the document
+	// being compiled. Each compilation carries its own store, so concurrent compilations do not see each
+	// other's definitions; nil falls back to the package-level store of package globals.
+	GlobalAttributes *globals.GlobalAttributes
 }
 
 // InlineStyle represents a CSS declaration parsed from an inline mj-style rule.
